@@ -1,9 +1,10 @@
 (* C05 -- property theorems. This file holds ONLY statements, `exact <lemma>`, non-vacuity examples and
-   Print Assumptions.  Models: Model/C05_pipeline.v (collocate_filesets on top of C03's match_model) and
-   Model/C05_queue.v (the result queue between workers and parent, all interleavings). *)
+   Print Assumptions.  Models: Model/C05_pipeline.v (collocate_filesets on top of C03's match_model),
+   Model/C05_queue.v (the result queue between workers and parent, all interleavings) and Model/C05_queue_live.v
+   (scheduler, measures and weaker parents used to state liveness and the role of the final drain). *)
 From Coq Require Import ZArith List Bool Permutation.
-From Typhon Require Import Model.C03_tree Model.C05_pipeline Model.C05_queue.
-From Typhon Require Import Proofs.C05_bundle Proofs.C05_pipeline Proofs.C05_queue.
+From Typhon Require Import Model.C03_tree Model.C05_pipeline Model.C05_queue Model.C05_queue_live.
+From Typhon Require Import Proofs.C05_bundle Proofs.C05_pipeline Proofs.C05_queue Proofs.C05_queue_live.
 Import ListNotations.
 Open Scope Z_scope.
 
@@ -98,6 +99,75 @@ Theorem queue_parent_never_stuck : forall cap items tr s, (0 < cap)%nat ->
   qrun cap (init items) tr = Some s -> pc s <> Exited -> exists a s', step cap s a = Some s'.
 Proof. exact queue_progress_lemma. Qed.
 
+(* LIVENESS.  From EVERY reachable state (whatever the workers, the feeder threads and the parent have done so far,
+   queue of any capacity >= 1) a finite sequence of enabled actions leads to the parent's exit: the run of the explicit
+   scheduler `sched` (feeders flush, the parent takes what is visible, workers put / end, the parent's final passes).
+   Its length is bounded by the explicit measure mu s = 5 (4 #pending + 3 #in-flight + #alive + (1|2) #visible) +
+   rank of the parent's position, and at the exit everything has been yielded. *)
+Theorem queue_liveness : forall cap items tr s, (0 < cap)%nat ->
+  qrun cap (init items) tr = Some s ->
+  exists s', qrun cap s (sched_trace cap (mu s) s) = Some s' /\ pc s' = Exited /\
+             (length (sched_trace cap (mu s) s) <= mu s)%nat /\
+             Permutation (yielded s') (concat items) /\ vis s' = [].
+Proof. exact queue_liveness_lemma. Qed.
+
+(* no deadlock, for the system as a whole (queue_parent_never_stuck is about the parent alone): while the parent has
+   not left, the scheduled action is enabled and strictly decreases mu *)
+Theorem queue_no_deadlock : forall cap items tr s, (0 < cap)%nat ->
+  qrun cap (init items) tr = Some s -> pc s <> Exited ->
+  exists a s', sched s = Some a /\ step cap s a = Some s' /\ (mu s' < mu s)%nat.
+Proof. exact queue_no_deadlock_lemma. Qed.
+
+(* the measure at the start, in closed form *)
+Theorem queue_measure_init : forall items,
+  mu (init items) = (20 * length (concat items) + 5 * length items + match items with [] => 1 | _ => 3 end)%nat.
+Proof. exact mu_init. Qed.
+
+(* ... and for ANY run, however it is scheduled: every action other than the parent's polling (Snapshot / EmptyTrue)
+   uses up one unit of work0; a run holds at most 3 #items + #workers + 1 of them -- the only thing that can go on for
+   ever is the parent polling while a worker computes *)
+Theorem queue_work_bounded : forall cap items tr s, qrun cap (init items) tr = Some s ->
+  (work_actions tr + work0 s = 3 * length (concat items) + length items + 1)%nat.
+Proof. exact queue_work_exact_init. Qed.
+
+(* DRAIN NEEDED, exactly.  For the parent that leaves as soon as its snapshot shows no living worker (no drain after
+   the last worker died), EVERY run that reaches the exit is a run tr0 of the real system to a state s0 in which no
+   worker is alive and none has anything left, followed by Leave; what it fails to yield is exactly what is visible in
+   the queue in s0 (at most cap items); it yields everything iff the queue is empty there; a non-empty queue in s0 is
+   only possible right after the snapshot (pc = Drain) -- results made visible since the parent last found the queue
+   empty; and when s0 is at the head of the loop the run is a run of the real parent. *)
+Theorem drain_needed : forall cap items tr s,
+  qrun_nodrain cap (init items) tr = Some s -> pc s = Exited ->
+  exists tr0 s0, tr = tr0 ++ [Leave] /\ qrun cap (init items) tr0 = Some s0 /\ s = exit_now s0 /\
+    run_flag s0 = false /\
+    Forall (fun w => alive w = false /\ pend w = [] /\ infl w = []) (ws s0) /\
+    Permutation (yielded s ++ vis s0) (concat items) /\
+    (length (vis s0) <= cap)%nat /\
+    (Permutation (yielded s) (concat items) <-> vis s0 = []) /\
+    (vis s0 <> [] -> pc s0 = Drain) /\
+    (pc s0 = Head -> qrun cap (init items) tr = Some s).
+Proof. exact drain_needed_lemma. Qed.
+
+(* ... and such a run exists for EVERY non-empty workload and every capacity (not only the single witness below): the
+   last result is put and flushed, all workers end, the parent's snapshot sees nobody alive *)
+Theorem drain_needed_everywhere : forall cap items, (0 < cap)%nat -> concat items <> [] ->
+  exists tr s, qrun_nodrain cap (init items) tr = Some s /\ pc s = Exited /\ vis s <> [] /\
+    ~ Permutation (yielded s) (concat items).
+Proof. exact drain_needed_everywhere_lemma. Qed.
+
+(* the parent of seeded change C05-a (one result per pass of the outer loop) loses results as well *)
+Theorem one_get_per_pass_refuted : exists cap items tr s,
+  qrun_oneget cap (init items) tr = Some s /\ pc s = Exited /\ vis s <> [] /\
+  ~ Permutation (yielded s) (concat items).
+Proof. exact oneget_refuted. Qed.
+
+(* ... but only when the queue has more than one slot (collocate_filesets: Queue(maxsize=processes), so only with two
+   or more processes): with ONE slot that parent yields everything under every interleaving *)
+Theorem one_get_per_pass_single_slot_safe : forall items tr s,
+  qrun_oneget 1 (init items) tr = Some s -> pc s = Exited ->
+  Permutation (yielded s) (concat items) /\ vis s = [].
+Proof. exact oneget_single_slot_safe. Qed.
+
 (* the statements are not vacuous for weaker code: without the drain after the last worker died, and without the
    final flush of the bundle, results are lost *)
 Theorem without_final_drain_refuted : exists cap items tr s,
@@ -140,6 +210,30 @@ Example queue_nonvacuous : exists tr s,
   qrun 2 (init [[1; 2]; [3]]) tr = Some s /\ pc s = Exited /\ yielded s = [3; 1; 2].
 Proof. exact queue_example. Qed.
 
+(* non-vacuity of queue_liveness: a state in the middle of a run (two results handed to the feeders, the parent at the
+   head of its loop): measure 63, the scheduler needs 14 actions and everything is yielded *)
+Example queue_liveness_nonvacuous : exists s s',
+  qrun 2 (init [[1; 2]; [3]]) [Snapshot; EmptyTrue; Put 1; Put 0] = Some s /\ pc s = Head /\ mu s = 63%nat /\
+  sched_trace 2 (mu s) s = [Flush 0; Flush 1; Snapshot; Get; Get; Put 0; Flush 0; Get; Die 0; Die 1;
+                            EmptyTrue; Snapshot; EmptyTrue; Leave] /\
+  qrun 2 s (sched_trace 2 (mu s) s) = Some s' /\ pc s' = Exited /\ yielded s' = [1; 3; 2].
+Proof. eexists. eexists. split; [vm_compute; reflexivity|]. vm_compute. repeat split. Qed.
+
+(* non-vacuity of drain_needed: a run of the weaker parent that takes two results, then leaves with the third one
+   visible in the queue (11 of its 16 actions are not polling) *)
+Example drain_needed_nonvacuous : exists s,
+  qrun_nodrain 2 (init [[1; 2]; [3]])
+    [Snapshot; EmptyTrue; Put 1; Put 0; Flush 1; Flush 0; Snapshot; Get; Get; EmptyTrue; Put 0; Flush 0;
+     Die 1; Die 0; Snapshot; Leave] = Some s /\
+  pc s = Exited /\ yielded s = [3; 1] /\ vis s = [2].
+Proof. eexists. split; [vm_compute; reflexivity|]. repeat split. Qed.
+
+(* non-vacuity of one_get_per_pass_single_slot_safe: one worker, one slot, the one-get parent reaches its exit *)
+Example one_get_single_slot_nonvacuous : exists s,
+  qrun_oneget 1 (init [[1; 2]]) [Put 0; Flush 0; Snapshot; Get; Put 0; Flush 0; Die 0; Snapshot; Get; Leave] = Some s /\
+  pc s = Exited /\ yielded s = [1; 2].
+Proof. eexists. split; [vm_compute; reflexivity|]. repeat split. Qed.
+
 Print Assumptions union_over_matches.
 Print Assumptions pipeline_exact.
 Print Assumptions independent_of_split_processes_bundle.
@@ -152,5 +246,13 @@ Print Assumptions same_name_overwrites.
 Print Assumptions queue_exactly_once.
 Print Assumptions queue_bounded.
 Print Assumptions queue_parent_never_stuck.
+Print Assumptions queue_liveness.
+Print Assumptions queue_no_deadlock.
+Print Assumptions queue_measure_init.
+Print Assumptions queue_work_bounded.
+Print Assumptions drain_needed.
+Print Assumptions drain_needed_everywhere.
+Print Assumptions one_get_per_pass_refuted.
+Print Assumptions one_get_per_pass_single_slot_safe.
 Print Assumptions without_final_drain_refuted.
 Print Assumptions without_final_flush_refuted.
